@@ -18,6 +18,7 @@ import (
 	"sort"
 	"strings"
 
+	"golang.org/x/tools/go/packages"
 	"golang.org/x/tools/go/types/typeutil"
 )
 
@@ -478,19 +479,77 @@ func dateFormats(c *Ctx) {
 			}
 			found = true
 			layout, viaFormat := "", false
-			ast.Inspect(fi.value, func(n ast.Node) bool {
-				ce, ok := n.(*ast.CallExpr)
-				if !ok {
+			presenceByValue := ""
+			findFormat := func(pk *packages.Package, node ast.Node) {
+				ast.Inspect(node, func(n ast.Node) bool {
+					ce, ok := n.(*ast.CallExpr)
+					if !ok {
+						return true
+					}
+					if f, _ := typeutil.Callee(pk.TypesInfo, ce).(*types.Func); f != nil && f.FullName() == "(time.Time).Format" && len(ce.Args) == 1 {
+						viaFormat = true
+						if v, ok := constOf(pk, ce.Args[0]); ok && v.isStr() {
+							layout = v.str()
+						}
+					}
 					return true
-				}
-				if f, _ := typeutil.Callee(wr.pkg.TypesInfo, ce).(*types.Func); f != nil && f.FullName() == "(time.Time).Format" && len(ce.Args) == 1 {
-					viaFormat = true
-					if v, ok := constOf(wr.pkg, ce.Args[0]); ok && v.isStr() {
-						layout = v.str()
+				})
+			}
+			findFormat(wr.pkg, fi.value)
+			// one level of helper: p.X = spdxDate(node.X)
+			if !viaFormat {
+				if ce, ok := fi.value.(*ast.CallExpr); ok {
+					if f, _ := typeutil.Callee(wr.pkg.TypesInfo, ce).(*types.Func); f != nil && f.Pkg() != nil && strings.HasPrefix(f.Pkg().Path(), modPath+"/") {
+						if hfd, hpk := c.P.FuncDecl(objName(f)); hfd != nil {
+							findFormat(hpk, hfd.Body)
+							// the helper may return "no date" only for a nil timestamp
+							ast.Inspect(hfd.Body, func(n ast.Node) bool {
+								ifs, ok := n.(*ast.IfStmt)
+								if !ok || !terminates(ifs.Body) {
+									return true
+								}
+								onlyNil := true
+								var walk func(e ast.Expr)
+								walk = func(e ast.Expr) {
+									switch b := e.(type) {
+									case *ast.ParenExpr:
+										walk(b.X)
+										return
+									case *ast.BinaryExpr:
+										if b.Op == token.LOR || b.Op == token.LAND {
+											walk(b.X)
+											walk(b.Y)
+											return
+										}
+										if (b.Op == token.EQL || b.Op == token.NEQ) && (isNilIdent(hpk, b.Y) || isNilIdent(hpk, b.X)) {
+											return
+										}
+									}
+									onlyNil = false
+								}
+								walk(ifs.Cond)
+								if !onlyNil {
+									presenceByValue = types.ExprString(ifs.Cond)
+								}
+								return true
+							})
+						}
 					}
 				}
-				return true
-			})
+			}
+			// the guard around an inline assignment must be a nil test of the timestamp
+			for _, x := range enclosing(wr.fd.Body, nodeAt(wr, fi)) {
+				if ifs, ok := x.(*ast.IfStmt); ok {
+					txt := types.ExprString(ifs.Cond)
+					if strings.Contains(txt, pair[1]) && !strings.Contains(txt, "nil") {
+						presenceByValue = txt
+					}
+				}
+			}
+			if presenceByValue != "" && viaFormat {
+				c.bad(R, construct, c.P.Pos(fi.pos), fmt.Sprintf("whether %s is written is decided by the value test `%s` instead of a nil test of the timestamp: a date that is set to that value (for example the Unix epoch, as SOURCE_DATE_EPOCH=0 builds produce) is written as absent and lost", pair[0], presenceByValue))
+				continue
+			}
 			switch {
 			case !viaFormat:
 				c.bad(R, construct, c.P.Pos(fi.pos), fmt.Sprintf("%s is written as %s, not through (time.Time).Format with a constant layout: the reader's time.Parse(%v) cannot read it back, so the date is lost", pair[0], types.ExprString(fi.value), readLayouts))
